@@ -16,6 +16,10 @@ static Fields gen(Tape &t) {
   f.set("base", b.text());
   f.set("ref", r.text());
   f.seti("kind", kind);
+  // variants of how R is normalised: after uriMakeOwner (other allocation pattern), and with the k-th allocation of the
+  // normalising call failing once (a result that is still reported as success must identify the same resource)
+  f.seti("owned", t.chance(3, 4) ? 0 : 1);
+  f.seti("fault", t.chance(3, 4) ? 0 : t.range(1, 6));
   return f;
 }
 
@@ -31,13 +35,15 @@ template <class A> struct Held {
   typename A::Uri u;
   std::unique_ptr<Ch[]> buf;
   bool live = false;
-  ~Held() { if (live) A::FreeUriMembers(&u); }
-  int parse(const std::string &s) {
+  UriMemoryManager *mm = nullptr;
+  ~Held() { if (live) A::FreeUriMembersMm(&u, mm); }
+  int parse(const std::string &s, UriMemoryManager *m = nullptr) {
+    mm = m;
     std::basic_string<Ch> w = widen<Ch>(s);
     buf.reset(new Ch[w.size()]);
     if (!w.empty()) memcpy(buf.get(), w.data(), w.size() * sizeof(Ch));
     const Ch *ep;
-    int rc = A::ParseSingleUriEx(&u, buf.get(), buf.get() + w.size(), &ep);
+    int rc = A::ParseSingleUriExMm(&u, buf.get(), buf.get() + w.size(), &ep, mm);
     live = true;
     return rc;
   }
@@ -52,11 +58,12 @@ static std::string classify(const MUri &R) {
   return "";
 }
 
-template <class A> static Verdict check_type(const std::string &bt, const std::string &rt, const MUri &MR, bool *pathChanged) {
+template <class A> static Verdict check_type(const std::string &bt, const std::string &rt, const MUri &MR, bool *pathChanged, int owned, int fault, bool *swallowed) {
   std::string klass = classify(MR);
+  LedgerMM mm;  // declared before the URIs that release through it
   auto fail = [&](const std::string &m) { return Verdict::fail(std::string(A::name()) + ": R='" + esc(rt) + "' B='" + esc(bt) + "': " + m, klass); };
   Held<A> B, R1, R2;
-  if (B.parse(bt) != 0 || R1.parse(rt) != 0 || R2.parse(rt) != 0) return Verdict::discard();
+  if (B.parse(bt) != 0 || R1.parse(rt) != 0 || R2.parse(rt, fault > 0 ? &mm.mm : nullptr) != 0) return Verdict::discard();
   // right-hand side: normalize(resolve(R, B))
   typename A::Uri rhs, lhs;
   int rc = A::AddBaseUri(&rhs, &R1.u, &B.u);
@@ -65,7 +72,15 @@ template <class A> static Verdict check_type(const std::string &bt, const std::s
   if (A::NormalizeSyntax(&rhs) != 0) return fail("normalisation of the resolved URI failed");
   // left-hand side: normalize(resolve(normalize(R), B))
   Snap before = snapshot<A>(R2.u);
-  if (A::NormalizeSyntax(&R2.u) != 0) return fail("normalisation of R failed");
+  if (owned && A::MakeOwnerMm(&R2.u, R2.mm) != 0) return fail("uriMakeOwner failed");
+  if (fault > 0) {
+    mm.reset_counts(); mm.reset_plan(); mm.fail_at = (uint64_t)fault;
+    int nrc = A::NormalizeSyntaxExMm(&R2.u, (unsigned)-1, &mm.mm);
+    bool bit = mm.failed > 0;
+    mm.reset_plan();
+    if (nrc != 0) return Verdict::pass();  // reported failure: nothing more to say here (C14 judges error reporting)
+    if (bit) *swallowed = true;            // a request failed and the call still reports success: the result is judged like any other
+  } else if (A::NormalizeSyntax(&R2.u) != 0) return fail("normalisation of R failed");
   Snap after = snapshot<A>(R2.u);
   std::string nrt;
   if (!to_string<A>(R2.u, &nrt)) return fail("uriToString failed on normalised R");
@@ -105,10 +120,15 @@ static Verdict check(const Fields &f) {
   if (!MB.hasScheme) return Verdict::discard();
   if (has_pct_dot(MR.path)) return Verdict::discard();  // outside the statement; the generator is built not to produce these
   bool pc = false;
-  Verdict v = check_type<Api<char>>(bt, rt, MR, &pc);
+  int owned = (int)f.geti("owned"), fault = (int)f.geti("fault");
+  bool sw = false;
+  Verdict v = check_type<Api<char>>(bt, rt, MR, &pc, owned, fault, &sw);
   if (v.kind != Verdict::PASS) return v;
-  v = check_type<Api<wchar_t>>(bt, rt, MR, &pc);
+  v = check_type<Api<wchar_t>>(bt, rt, MR, &pc, owned, fault, &sw);
   if (v.kind != Verdict::PASS) return v;
+  if (owned) stats().hit("R_made_owner_first");
+  if (fault) stats().hit("R_normalised_under_fault_plan");
+  if (sw) stats().hit("fault_bit_but_success_reported");
   Stats &S = stats();
   static const char *kinds[] = {"ref=same_scheme_absolute", "ref=other_scheme_absolute", "ref=network_path", "ref=absolute_path", "ref=relative_path", "ref=empty_path"};
   S.hit(kinds[f.geti("kind") % 6]);
